@@ -252,11 +252,15 @@ class SymExec:
             return False
         updates = []
         for st in s.body:
-            if not (isinstance(st, ast.If) and not st.orelse and len(st.body) == 1 and isinstance(st.body[0], ast.Assign)
-                    and len(st.body[0].targets) == 1 and isinstance(st.body[0].targets[0], ast.Name)
-                    and isinstance(st.body[0].value, ast.Constant) and isinstance(st.body[0].value.value, bool)):
+            # a single flag may stop the search at the first hit (`flag = CONST; break`): the flag can only change once anyway
+            inner = st.body if isinstance(st, ast.If) else []
+            if len(inner) == 2 and isinstance(inner[1], ast.Break) and len(s.body) == 1:
+                inner = inner[:1]
+            if not (isinstance(st, ast.If) and not st.orelse and len(inner) == 1 and isinstance(inner[0], ast.Assign)
+                    and len(inner[0].targets) == 1 and isinstance(inner[0].targets[0], ast.Name)
+                    and isinstance(inner[0].value, ast.Constant) and isinstance(inner[0].value.value, bool)):
                 return False
-            updates.append((st.test, st.body[0].targets[0].id, st.body[0].value.value))
+            updates.append((st.test, inner[0].targets[0].id, inner[0].value.value))
         if not updates or len({f for _, f, _ in updates}) != len(updates):
             return False
         u = s.target.id
